@@ -15,7 +15,7 @@ RULE = ('graphs: 2-chains (hard, soft), 3-chains (hh, hs, sh), fork and join wit
         'to 2 (thorough 3) further runs (single changes only before the last run); between runs every event with <= 2 lost persisted entries and <= 2 failing tasks (a failed task '
         'recovers when it is not chosen again); environments carried the documented way (a fresh Env merging the DONE entries); clock '
         'either strictly increasing or coarse (3 reads per value, so that equal clocks occur); every run explored over all schedules with '
-        '1 worker / 1 preemption and 2 workers / 0 preemptions (thorough: 2 workers / 1 preemption); the successor states of a history are '
+        '(workers, preemption bound) = (1,2),(2,1) on 2-task graphs and (1,1),(2,0) on 3-task graphs (thorough: (1,3),(2,2) and (1,2),(2,1)); the successor states of a history are '
         'the union over schedules. Oracle at the end of every run: no task is DONE unless each DONE dependency has end <= start(task) and '
         'no hard dependency is FAILED or SKIPPED; a task that entered DONE with its whole dependency cone DONE and not re-executed is not '
         'executed and keeps its entry bit for bit; no task runs twice in a run; non-trivial = runs starting from a non-empty state')
@@ -79,7 +79,7 @@ def job(args):
 
 
 def run(tier, seed):
-    plans = [(1, 1), (2, 0)] if tier == 'quick' else [(1, 1), (2, 1)]
+    plans = {2: [(1, 2), (2, 1)], 3: [(1, 1), (2, 0)]} if tier == 'quick' else {2: [(1, 3), (2, 2)], 3: [(1, 2), (2, 1)]}
     nruns = 3 if tier == 'quick' else 4
     graphs = ['chain2h', 'chain2s', 'chain3hh', 'chain3hs', 'join3hs'] if tier == 'quick' else list(GRAPHS)
     total = Report()
@@ -97,7 +97,7 @@ def run(tier, seed):
                     elif version == nruns:      # last level: single changes only (quick and thorough)
                         evs = [e for e in evs if len(e[0]) + len(e[1]) <= 1]
                     for event in evs:
-                        jobs.append((gname, carried, clock0, version, event, plans, coarse))
+                        jobs.append((gname, carried, clock0, version, event, plans[ntask], coarse))
             parts = _pmap_keep(job, jobs, seed)
             frontier = {g: {} for g in graphs}
             for (gname, *_), rep in zip(jobs, parts):
@@ -110,7 +110,7 @@ def run(tier, seed):
             total.extra[f'states_after_run_{version}_coarse{coarse}'] = sum(len(v) for v in frontier.values())
     total.states += len(graphs)
     total.extra['runs_per_history'] = nruns
-    total.extra['schedule_plans(workers, preemption bound)'] = plans
+    total.extra['schedule_plans(workers, preemption bound) per number of tasks'] = {str(k): v for k, v in plans.items()}
     total.sample({'graph': 'chain3hh', 'history': [{'run': 1, 'lost': [], 'failing': []}, {'run': 2, 'lost': [0], 'failing': []}]})
     return total
 
